@@ -98,7 +98,7 @@ TESTED_NOT_PROVED = [
     "(oracle on every option / helper / list / history case)",
     "isinstance(order, tuple) in find_unequal_order_edges: ITS graphs whose order is a list are outside the model (the library never builds them)",
 ]
-LEVEL_TEXT = ("Machine-checked proof (Coq, 86 theorems, all closed under the global context) over an executable model of get_rc and RadiusExpand: on every "
+LEVEL_TEXT = ("Machine-checked proof (Coq, 99 theorems, all closed under the global context) over an executable model of get_rc and RadiusExpand: on every "
               "well-formed ITS graph whose standard_order is the order difference the centre contains a bond iff its two orders differ or both atoms "
               "are hydrogens (for ignore_aromaticity ITS graphs: iff the orders differ by at least 1, with a witness that 'differs' alone fails; "
               "stated also on the two sides: for the ITS of a reactant graph G and a product graph H two atoms are joined in the centre iff they are "
@@ -199,8 +199,10 @@ def impl_lre(case):
     from synkit.Graph.ITS.its_decompose import get_rc
     from synkit.Graph.Context.radius_expand import RadiusExpand
     I = E.to_nx(case["I"])
-    path = RadiusExpand.longest_radius_extension(I, list(get_rc(I).nodes()))
-    return [list(path), X.obs_ctx(RadiusExpand.extract_k(I, -1))]
+    rcn = list(get_rc(I).nodes())
+    path = RadiusExpand.longest_radius_extension(I, list(rcn))
+    return [list(path), X.obs_ctx(RadiusExpand.extract_k(I, -1)),
+            [list(RadiusExpand.longest_radius_extension(I, [n])) for n in rcn], list(RadiusExpand.longest_radius_extension(I, rcn[::-1]))]
 
 
 def impl_list(case):
@@ -1230,6 +1232,13 @@ def oracle_lre(case):
     ball = _ball(I, rc_nodes, len(path))
     if set(ctx.nodes) != ball:
         fails.append(dict(clause="context-atoms", detail="n_knn=-1: context atoms %r, atoms within %d bonds of the centre %r" % (sorted(ctx.nodes), len(path), sorted(ball))))
+    # renumbering the atoms (same insertion / adjacency order) renumbers the extension path and the maximum-radius context (theorem C02_extract_k_z_equivariant)
+    import networkx as nx
+    pi = {n: 2 * n + 1001 for n in I.nodes}
+    J = nx.relabel_nodes(E.to_nx(case["I"]), pi, copy=True)
+    pathJ = RadiusExpand.longest_radius_extension(J, list(get_rc(J).nodes()))
+    if list(pathJ) != [pi[n] for n in path] or set(RadiusExpand.extract_k(J, -1).nodes) != {pi[n] for n in ctx.nodes}:
+        fails.append(dict(clause="context-renumbering", detail="after renumbering n -> 2n+1001 the extension path is %r (expected %r) / the n_knn=-1 context differs" % (list(pathJ), [pi[n] for n in path])))
     return fails
 
 
@@ -1450,7 +1459,7 @@ def nontrivial(case, obs):
     if "Is" in case:
         return len(case["Is"]) >= 2
     if case.get("lre"):
-        return isinstance(obs, list) and len(obs) == 2 and len(obs[0]) >= 2
+        return isinstance(obs, list) and len(obs) == 4 and len(obs[0]) >= 2
     if "helpers" in case:
         return isinstance(obs, list) and len(obs) == 3 and len(obs[0]["__set__"]) > 0
     I = _its_nx(case)
@@ -1481,7 +1490,7 @@ def distribution(cases, obss):
                 opt_eff["both_differ_from_each"] += o[3] != o[1] and o[3] != o[2]
             continue
         if c.get("lre"):
-            if isinstance(o, list) and len(o) == 2:
+            if isinstance(o, list) and len(o) == 4:
                 lre_len[str(len(o[0]))] = lre_len.get(str(len(o[0])), 0) + 1
             continue
         if _special(c):
